@@ -261,3 +261,31 @@ func culpritClass(v gen.V) string {
 	}
 	return valueClass(v)
 }
+
+// randomOtherFlags sets a random combination of the presentation flags that a format property does not
+// mention (line number, package name in the caller, date/time parts, local time, privacy, inherit) and
+// returns their names. The caller restores the flags (withFlags).
+func randomOtherFlags(r *gen.R, keep ...slog.Flags) []string {
+	var names []string
+	var skip slog.Flags
+	for _, k := range keep {
+		skip |= k
+	}
+	for _, f := range []struct {
+		b slog.Flags
+		n string
+	}{{slog.Llineno, "Llineno"}, {slog.Lcallerpackagename, "Lcallerpackagename"}, {slog.Ldate, "Ldate"}, {slog.Ltime, "Ltime"}, {slog.Lmicroseconds, "Lmicroseconds"},
+		{slog.LlocalTime, "LlocalTime"}, {slog.Lprivacypath, "Lprivacypath"}, {slog.Lprivacypathregexp, "Lprivacypathregexp"}, {slog.LattrsR, "LattrsR"}} {
+		if skip&f.b != 0 {
+			continue
+		}
+		if r.Bool() {
+			slog.AddFlags(f.b)
+			names = append(names, "+"+f.n)
+		} else {
+			slog.RemoveFlags(f.b)
+			names = append(names, "-"+f.n)
+		}
+	}
+	return names
+}
